@@ -1,12 +1,14 @@
 /-
   EVAL driver: `compute_root_layout` over the tree-level evaluator (Model/Eval.lean) with the real cache model, the leaf
-  model and the block model; flex/grid containers are outside this fragment (the harness generates none).
+  model, the block model and the flexbox model (Model/Flex.lean); grid containers are outside this fragment (the harness
+  generates none).
 -/
 import TaffyVerif.Drv.TreeParse
 import TaffyVerif.Model.Eval
 import TaffyVerif.Model.Leaf
 import TaffyVerif.Model.Root
 import TaffyVerif.Model.Block
+import TaffyVerif.Model.Flex
 
 namespace DrvEVAL
 open Proto Drv Eval
@@ -21,7 +23,8 @@ def leafAlg (inp : LayoutInput F) (st : Style F) (m : Size (Option F) → Size (
 def unmodelled : Style F → List (Style F) → LayoutInput F → ProgM F (LayoutOutput F) :=
   fun _ _ _ => pure LayoutOutput.hidden
 
-def algs : Algs F := { leaf := leafAlg, block := BlockModel.computeBlockLayout, flex := unmodelled, grid := unmodelled }
+def algs : Algs F :=
+  { leaf := leafAlg, block := BlockModel.computeBlockLayout, flex := FlexModel.computeFlexboxLayout, grid := unmodelled }
 
 mutual
 def preorder : NS F (CacheModel.Cache F) → List (Layout F)
